@@ -71,16 +71,18 @@ def seeds() -> list[str]:
                     f"{str(m.get('needs_to_manifest', ''))[:230].replace('|', '/')} | {res} |")
     out = ["### 9.6 Independently seeded breaking changes",
            "",
-           "Eighty changes were written by fresh sub-agents that saw only the text of one property and their own scratch",
+           "114 confirmed changes (of about 120 written) come from fresh sub-agents that saw only the text of one property and their own scratch",
            "worktree of /repo — nothing from /verif (round 1: `*_a`, `*_b` against the pinned tree + the first two repairs;",
-           "round 2: `*_c`, `*_d` against the repaired tree, told only which files earlier seeds had touched). Each was",
+           "round 2: `*_c`, `*_d` against the repaired tree, told only which files earlier seeds had touched; round 3:",
+           "`*_e`, `*_f` against the frozen tree with 72 repairs, told to look for a mechanism no earlier seed used). Each was",
            "confirmed by the integrator in a scratch worktree (`harness/seed_confirm.sh`: demo passes clean, fails patched,",
            "suite has no new failure vs BASELINE.json) and stored under `seeded/<name>/` (patch.diff, demo, meta.json, and",
            "result.json written by `harness/seeded.py`, which applies the patch to a scratch worktree — never to /repo — and",
            "runs the property's quick check there through `VERIF_REPO_ROOT`).",
            "",
            "First-run results: round 1 — 18 of 40 caught with a failing input, 3 caught without one, 19 missed; round 2 — 19",
-           "of 36 confirmable seeds caught with a failing input, 3 without, 14 missed. **Every miss was a generator/observable",
+           "of 36 confirmable seeds caught with a failing input, 3 without, 14 missed; round 3 — 19 of 37 caught with a failing",
+           "input, 2 without, 16 missed. **Every miss was a generator/observable",
            "gap, never a model that wrongly agreed**: the input the change needs (nested client packages; error bodies that",
            "are JSON scalars; one Python object shared at two positions of a list body; `2XX` range keys; compact `data:x` SSE",
            "syntax; allOf members carrying only `required`; a second client generated into a stale shared core; a path item",
@@ -88,14 +90,21 @@ def seeds() -> list[str]:
            "a first client generated with its default core; a class object re-created under the same qualified name; whole",
            "JSON numbers for float fields; a cycle whose back edge targets a named union alias; schemas named like imported",
            "helper names; shared `components.requestBodies`; every declaration order of a self-referencing base + allOf child;",
-           "a root `__init__.py` deleted from the existing tree; …) was simply not generated, or the observable stopped one",
+           "a root `__init__.py` deleted from the existing tree; round 3: a client regenerated around a core shared with",
+           "two other clients; long unbroken backslash tokens at the docstring wrap column; cycles closing through an",
+           "additionalProperties edge; object/list defaults on optional properties; discriminator enum values that collide",
+           "after member-name derivation; one-variant `anyOf [T, null]`; a forward reference resolved only after the",
+           "converter's first use; trailing-slash / empty-segment path templates; `components.responses` shared by several",
+           "operations; 3xx answers with a served `Location`; two spellings of one tag with equal score; several 2xx codes",
+           "declared out of priority order; an edit confined to the shared core directory; undeclared path variables next to",
+           "a body; U+2028/FF/NEL in response descriptions; operationIds colliding across tag spellings; …) was simply not generated, or the observable stopped one",
            "layer short (C02 compared the IR, not the emitted dataclasses; C13 compared annotation strings, not resolved",
            "objects). Each was added to the owning check's generators / observables / corpus, after which the seed is caught",
            "with a concrete failing input. Two seeds also exposed a weakness of the shared decision rule (an oracle failure on",
            "a model-less stream must always be a violation) which was corrected.",
            "",
            "Seeds whose patch stopped applying after repairs to the same lines, or that stopped being violations because a",
-           "repair removed the mechanism they relied on, are kept under `seeded/_obsolete/` with a note (7 of the 80).",
+           "repair removed the mechanism they relied on, are kept under `seeded/_obsolete/` with a note (7 of the 114, six with their files; candidates that could not be confirmed as violations by `seed_confirm.sh` were dropped).",
            "",
            f"Current state on /repo HEAD: {stats['caught']} caught with a failing input, {stats['noinput']} caught without, "
            f"{stats['missed']} missed, {stats['notrun']} not run.",
